@@ -786,7 +786,7 @@ func structValueFields(v ssa.Value) map[string]string {
 		if s, ok := r.(*ssa.Store); ok && s.Addr == ssa.Value(a) {
 			base := Desc(s.Val)
 			for k := 0; k < st.NumFields(); k++ {
-				out[st.Field(k).Name()] = base + "." + st.Field(k).Name()
+				out[FN(st.Field(k))] = base + "." + FN(st.Field(k))
 			}
 		}
 	}
@@ -794,7 +794,7 @@ func structValueFields(v ssa.Value) map[string]string {
 		if fa, ok := r.(*ssa.FieldAddr); ok && fa.Referrers() != nil {
 			for _, r2 := range *fa.Referrers() {
 				if s, ok := r2.(*ssa.Store); ok && s.Addr == ssa.Value(fa) {
-					out[st.Field(fa.Field).Name()] = Desc(s.Val)
+					out[FN(st.Field(fa.Field))] = Desc(s.Val)
 				}
 			}
 		}
@@ -814,7 +814,7 @@ func c18Carries(c *Ctx, rule string, fn *ssa.Function) {
 	bf := BuiltFields(fn, hn)
 	var lost []string
 	for i := 0; st != nil && i < st.NumFields(); i++ {
-		f := st.Field(i).Name()
+		f := FN(st.Field(i))
 		if f == "core" || f == slogGroups {
 			continue
 		}
@@ -1282,7 +1282,7 @@ func c18GroupsField(c *Ctx) {
 	if st, ok := h.Underlying().(*types.Struct); ok {
 		for i := 0; i < st.NumFields(); i++ {
 			if TypeName(st.Field(i).Type()) == "[]string" {
-				slogGroups = st.Field(i).Name()
+				slogGroups = FN(st.Field(i))
 			}
 		}
 	}
